@@ -250,6 +250,11 @@ impl DwarfRef {
         best
     }
 
+    /// The inlined-subroutine instances whose range contains `pc`.
+    pub fn inlined_containing(&self, pc: u64) -> Vec<(u64, u64)> {
+        self.inlined.iter().filter(|(lo, hi)| *lo <= pc && pc < *hi).copied().collect()
+    }
+
     pub fn in_inlined(&self, pc: u64) -> bool {
         self.inlined.iter().any(|(lo, hi)| *lo <= pc && pc < *hi)
     }
